@@ -1,4 +1,5 @@
 """C10 MTBDD arithmetic — terminal/base cases of every operator (E-TABLE) ..."""
+import ector
 import ecof
 import eeval
 import ecache
@@ -62,4 +63,10 @@ def run(ctx):
                 "cofactors_node / cofactors_edge hand out cofactor 0, 1[, 2] of the edge's own tag and node, None for terminals.")
     n = ecof.run(ctx, F, only=("mtbdd",))
     ctx.floor("E-TABLE.cof", "interpreted cofactor situations", n, 3)
+    ctx.explain("E-TABLE.ctor: f_edge / t_edge / u_edge / constant_edge / var_edge / not_var_edge of the function types (ST and "
+                "MT) are interpreted and must build the constant terminal resp. a node created at var_to_level(var) whose "
+                "children are (true, false) / (1, 0) / (true, unknown, false) in that order (BCDD: (T, !T) behind an untagged "
+                "edge; ZBDD: (tautology(level + 1), Empty) as the first node of its chain); the default not_var is not(var).")
+    n = ector.run(ctx, F, only=("mtbdd",))
+    ctx.floor("E-TABLE.ctor", "interpreted constructor bodies", n, 3)
     ctx.not_decided = "non-overflow arithmetic of the terminal types, Div rounding, float behaviour"
